@@ -106,4 +106,7 @@ var isKeywords = map[string]bool{
 	"import":      true,
 	"return":      true,
 	"var":         true,
+	// not a keyword, but a parameter named nil shadows the nil that the
+	// generated client and processor bodies compare against
+	"nil": true,
 }
